@@ -360,6 +360,9 @@ class Builder(object):
         return outs
 
     def program(self):
+        self.meta["regs"] = {"points": list(self.points), "exprs": list(self.exprs), "values": list(self.values),
+                             "funcs": [list(f[:3]) for f in self.funcs], "cons": list(self.conslist),
+                             "parts": [list(p) for p in self.parts], "n": self.n}
         return {"ops": self.ops, "meta": self.meta}
 
 
